@@ -509,6 +509,10 @@ func init() {
 						s.OK(key, p, "shrinking loop: "+why)
 						continue
 					}
+					if ok, why := flagShrinkLoop(c, f, l); ok {
+						s.OK(key, p, "flag-or-shrink loop: "+why)
+						continue
+					}
 					if ok, why := cursorLoop(c, f, l); ok {
 						s.OK(key, p, "cursor loop: "+why)
 						continue
@@ -1000,6 +1004,98 @@ func shrinkLoop(c *Ctx, f *ssa.Function, l *ssaLoop) (bool, string) {
 				name = phi.Name()
 			}
 			return true, name + " loses at least one element on every way round the loop"
+		}
+	}
+	return false, ""
+}
+
+// flagShrinkLoop: the loop goes on only while a flag is true, and on every way round either the flag is set to false
+// (the next test of it leaves the loop) or a string / slice carried round the loop loses at least one element
+// (`for more := true; more; { if i := IndexByte(q, '&'); i >= 0 { q = q[i+1:] } else { more = false } … }`).
+func flagShrinkLoop(c *Ctx, f *ssa.Function, l *ssaLoop) (bool, string) {
+	ff := Facts(c, f)
+	var flag *ssa.Phi
+	for b := range l.Blocks {
+		iff, ok := lastIf(b)
+		if !ok {
+			continue
+		}
+		in0, in1 := l.Blocks[b.Succs[0]], l.Blocks[b.Succs[1]]
+		if in0 == in1 {
+			continue
+		}
+		for _, nf := range normFact(iff.Cond, in0) {
+			if p, isPhi := nf.Cond.(*ssa.Phi); isPhi && nf.Val && p.Block() == l.Header {
+				flag = p
+			}
+		}
+	}
+	if flag == nil {
+		return false, ""
+	}
+	for _, ins := range l.Header.Instrs {
+		rest, ok := ins.(*ssa.Phi)
+		if !ok {
+			break
+		}
+		if rest == flag {
+			continue
+		}
+		switch rest.Type().Underlying().(type) {
+		case *types.Slice:
+		case *types.Basic:
+			if !isStringType(rest.Type()) {
+				continue
+			}
+		default:
+			continue
+		}
+		shrinks := func(v ssa.Value) bool {
+			sl, isSl := v.(*ssa.Slice)
+			if !isSl || sl.X != ssa.Value(rest) || sl.High != nil || sl.Low == nil {
+				return false
+			}
+			t := termOf(sl.Low)
+			return t.k >= 1 && (t.base == nil || nonNegAt(ff, sl.Block(), t.base))
+		}
+		seen := map[*ssa.Phi]bool{}
+		var pairOK func(fv, rv ssa.Value) bool
+		pairOK = func(fv, rv ssa.Value) bool {
+			if k, isK := constBool(fv); isK && !k {
+				return true
+			}
+			if shrinks(rv) {
+				return true
+			}
+			fp, ok1 := fv.(*ssa.Phi)
+			rp, ok2 := rv.(*ssa.Phi)
+			if !ok1 || !ok2 || fp.Block() != rp.Block() || fp.Block() == l.Header || len(fp.Edges) != len(rp.Edges) {
+				return false
+			}
+			if seen[fp] {
+				return true
+			}
+			seen[fp] = true
+			for i := range fp.Edges {
+				if !pairOK(fp.Edges[i], rp.Edges[i]) {
+					return false
+				}
+			}
+			return true
+		}
+		okAll, n := true, 0
+		for i := range flag.Edges {
+			if !l.Blocks[l.Header.Preds[i]] {
+				continue
+			}
+			n++
+			if !pairOK(flag.Edges[i], rest.Edges[i]) {
+				okAll = false
+				break
+			}
+		}
+		if okAll && n > 0 {
+			return true, fmt.Sprintf("on every way round either %s becomes false or %s loses at least one element", phiName(flag), phiName(rest))
 		}
 	}
 	return false, ""
